@@ -616,10 +616,17 @@ func checkOutcome(tc *tcase, o outcome) string {
 				return fmt.Sprintf("trace[%d]: f%d negotiated although the current advertisement (list %d) does not contain it", i, e.k, e.list)
 			}
 			// I5: voluntary before mandatory
+			// (a feature advertised twice with contradicting flags is not clearly
+			// mandatory: only an unambiguous advertisement counts)
 			mandatoryAsAdvertised := false
 			for _, it := range adv {
 				if it.k == e.k && it.required {
 					mandatoryAsAdvertised = true
+				}
+			}
+			for _, it := range adv {
+				if it.k == e.k && !it.required {
+					mandatoryAsAdvertised = false
 				}
 			}
 			if forced && !advertised {
@@ -677,6 +684,15 @@ func checkOutcome(tc *tcase, o outcome) string {
 				}
 				f := tc.feats[it.k]
 				if !f.negotiable {
+					continue
+				}
+				contradicted := false
+				for _, it2 := range adv {
+					if it2.k == it.k && !it2.required {
+						contradicted = true
+					}
+				}
+				if contradicted {
 					continue
 				}
 				ran := false
